@@ -254,6 +254,13 @@ func caseA(seed uint64, long bool, a *acc) {
 		tracks[i] = &trackA{tr: track{rate: pickRate(&r)}, ts0: pickTS0(&r), gen: newStepGen(&r)}
 	}
 	n := 8 + r.intn(120)
+	if run.WantSample() {
+		rates := []int{}
+		for _, t := range tracks {
+			rates = append(rates, t.tr.rate)
+		}
+		run.Sample(map[string]any{"clause": "pts-continuation", "seed": seed, "tracks": nTracks, "clock_rates": rates, "first_timestamp": tracks[0].ts0, "long": long})
+	}
 	if long {
 		n = 100000
 		for _, t := range tracks { // steps that cross 2^32 hundreds / thousands of times
@@ -498,6 +505,9 @@ func caseC(seed uint64, a *acc) {
 	n0 := int64(86400e9) + r.int63n(int64(maxNTPUnix-60*86400)*1e9-int64(86400e9)) // 1970-01-02 .. ~2035-12
 	ts0 := pickTS0(&r)
 	spec := caseSpec{Clause: "ntp", Seed: seed}
+	if run.WantSample() {
+		run.Sample(map[string]any{"clause": "ntp-mapping", "seed": seed, "clock_rate": rate, "writer_epoch_unix_ns": n0, "first_timestamp": ts0})
+	}
 
 	rs := &rtpsender.Sender{ClockRate: rate, Period: 24 * time.Hour, TimeNow: now, WritePacketRTCP: func(rtcp.Packet) {}}
 	rs.Initialize()
